@@ -223,23 +223,4 @@ theorem swap_swap {n c t : Nat} {X : Arr3 α} (hX : Rect3 n c t X) :
   rw [h.1] at this
   simpa using this
 
-/-- C4: `from_multi_index_to_3d_numpy` reads the panel back -/
-theorem fromMITo3d_ok {n c t : Nat} {X : Arr3 α} (hX : Rect3 n c t X) (hn : 0 < n) (hc : 0 < c)
-    (ht : 0 < t) (i tm : String) (hne : i ≠ tm) (names : List ν) (hl : names.length = c) :
-    fromMITo3d (miOf i tm names X) (some i) (some tm) = .ok X := by
-  have hX' := rect_swap hX
-  have hflat : ((miOf i tm names X).rows.map (·.2)).flatten = (X.map (transposeW t)).flatten.flatten := by
-    show ((miRows X).map (·.2)).flatten = _
-    rw [miRows_vals, rect_nTime hX hn hc]
-  have hI : levelVals (miOf i tm names X) i = .ok ((miRows X).map (·.1.1)) := by
-    simp [levelVals, miOf, hne, pure, Except.pure]
-  have hT : levelVals (miOf i tm names X) tm = .ok ((miRows X).map (·.1.2)) := by
-    simp [levelVals, miOf, hne, Ne.symm hne, pure, Except.pure]
-  unfold fromMITo3d
-  simp only [hI, hT, bind, Except.bind, hflat, instIds_miRows hX hn hc ht, timeIds_miRows hX hn hc,
-    List.length_map, List.length_range, length_flatten_flatten_rect hX']
-  simp only [miOf, hl, if_true]
-  rw [reshape3_flatten hX', swap_swap hX]
-  rfl
-
 end SkVerif.Panel.Lem
